@@ -692,6 +692,64 @@ example (t : TF Unit Nat) :
       transform (some t) (.collection [.collection [.collection [.bounds ⟨1, 2⟩ ⟨3, 4⟩, .multiPoint [⟨5, 6⟩]]]]) :=
   tie_geom_program 0 (some t) 5 _ rfl (by decide)
 
+/-! ### where the extracted methods write -/
+mutual
+/-- names a body binds to values it creates itself: arrays from `make`, `Point{}` locals, literals, call results -/
+def ownedL : List St → List String
+  | [] => []
+  | s :: r => owned1 s ++ ownedL r
+def owned1 : St → List String
+  | .make dst _ _ => [dst]
+  | .declPt n => [n]
+  | .declLit n _ _ => [n]
+  | .callM g _ => [g]
+  | .range i v _ body => i :: v :: ownedL body
+  | _ => []
+end
+mutual
+/-- names a body stores into (elements of, fields of) -/
+def targetsL : List St → List String
+  | [] => []
+  | s :: r => targets1 s ++ targetsL r
+def targets1 : St → List String
+  | .store dst _ _ => [dst]
+  | .store2 dst _ _ _ => [dst]
+  | .storeCallM dst _ _ => [dst]
+  | .makeAt dst _ _ _ => [dst]
+  | .callT dst _ => [dst]
+  | .range _ _ _ body => targetsL body
+  | _ => []
+end
+
+/-- a method stores only into what it created itself, and never rebinds its receiver: every store target is a
+name bound by `make` / `Point{}` in the same body, no such name is the receiver's or a loop variable over the
+receiver's elements -/
+def writesOwnOnly (m : Method) : Bool :=
+  let made := (ownedL m.body).filter fun n => !(isLoopVar m.body n)
+  (targetsL m.body).all (fun d => made.contains d) && !(ownedL m.body).contains m.recvName
+where
+  isLoopVar (body : List St) (n : String) : Bool := (loopVarsL body).contains n
+  loopVarsL : List St → List String
+    | [] => []
+    | .range i v _ body :: r => i :: v :: loopVarsL body ++ loopVarsL r
+    | _ :: r => loopVarsL r
+
+/-- **input untouched, at the source**: in each of the eight extracted methods every indexed store, field store
+and `make`-into-slot targets a variable the same body bound to a fresh `make(…)` array or a `Point{}` local —
+never the receiver, a range variable (an element of the receiver) or anything reached from them.  (The
+interpreter enforces the same dynamically: a store into anything but an array made by `make` is stuck, and
+`tie_geom_*` show the runs are not stuck.)  This is the assumption of the memory model `Mem.lean`
+(`C10_input_unchanged`) about WHERE the code writes, checked on the code as extracted. -/
+theorem tie_geom_writes : Gen.geomMethods.all (fun m => writesOwnOnly m.2.2) = true := by
+  simp [Gen.geomMethods, writesOwnOnly, ownedL, owned1, targetsL, targets1, writesOwnOnly.isLoopVar,
+    writesOwnOnly.loopVarsL]
+
+/-- the check is not vacuous: a body that stores into its receiver, or into a range variable, is rejected -/
+example : writesOwnOnly ⟨"l", "LineString", [.make "l2" "LineString" "l", .range "i" "p" "l" [.store "l" "i" (.var "p")]]⟩ = false := by
+  simp [writesOwnOnly, ownedL, owned1, targetsL, targets1, writesOwnOnly.isLoopVar, writesOwnOnly.loopVarsL]
+example : writesOwnOnly ⟨"p", "Polygon", [.make "p2" "Polygon" "p", .range "i" "r" "p" [.range "j" "pp" "r" [.callT "pp" "pp"]]]⟩ = false := by
+  simp [writesOwnOnly, ownedL, owned1, targetsL, targets1, writesOwnOnly.isLoopVar, writesOwnOnly.loopVarsL]
+
 /-- the methods named `Transform` in package geom are exactly the eight modelled ones, with one signature -/
 theorem tie_Geom :
     Gen.geomMethods.map (fun m => (m.1, m.2.1)) =
